@@ -350,4 +350,10 @@ theorem go_line_is_parsed_as_its_known_pairs (items : List GoItem) (hok : ∀ it
     (by simp [GoItem.tokens])
   simpa [parseGoCommand, GoItem.tokens, GoItem.apply] using this
 
+
+/-- non-vacuity: `go foo wtime 5 bar movestogo 7 wtime 9 baz` — unknown tokens anywhere, `wtime` twice -/
+example : parseGoCommand ("go".toList :: ([GoItem.junk "foo".toList, .wtime "5".toList 5, .junk "bar".toList,
+      .movestogo "7".toList 7, .wtime "9".toList 9, .junk "baz".toList].flatMap GoItem.tokens)) =
+    some { wtime := 9, movestogo := some 7 } := by decide
+
 end Walleye
